@@ -130,7 +130,7 @@ pub fn check01(runner: &mut Runner, case: &mut ExecCase, st: Option<&mut Stats>)
 fn run01(ctx: &Ctx) {
     let runner = RefCell::new(Runner::new());
     ctx.shrink_iters.set(3000);
-    let cases = ctx.share(ctx.tier.pick(48_000, 1_600_000));
+    let cases = ctx.share(ctx.tier.pick(160_000, 3_200_000));
     ctx.search("struct", "exec", cases, gen::program(true, false), |p, want_case| {
         let mut case = gen::lower(p);
         let mut st = ctx.stats();
@@ -138,7 +138,7 @@ fn run01(ctx: &Ctx) {
         let v = check01(&mut runner.borrow_mut(), &mut case, if frozen { None } else { Some(&mut st) });
         (v, if want_case { case.to_json() } else { Value::Null })
     });
-    let cases = ctx.share(ctx.tier.pick(160, 4000));
+    let cases = ctx.share(ctx.tier.pick(320, 6400));
     ctx.shrink_iters.set(300);
     ctx.search("long", "exec", cases, gen::program(true, true), |p, want_case| {
         let mut case = gen::lower(p);
@@ -228,7 +228,7 @@ fn run_diff(ctx: &Ctx, engine: Engine, local_calls: bool, quick: u64, thorough: 
 }
 
 fn run03(ctx: &Ctx) {
-    run_diff(ctx, Engine::Jit, true, 32_000, 1_000_000, 160, 4000);
+    run_diff(ctx, Engine::Jit, true, 96_000, 2_000_000, 320, 6400);
 }
 
 fn replay03(_ctx: &Ctx, _kind: &str, case: &Value) -> Verdict {
@@ -257,10 +257,10 @@ pub fn check_refusal(runner: &mut Runner, case: &mut ExecCase) -> Verdict {
 }
 
 fn run04(ctx: &Ctx) {
-    run_diff(ctx, Engine::Cranelift, false, 16_000, 480_000, 32, 800);
+    run_diff(ctx, Engine::Cranelift, false, 24_000, 640_000, 48, 960);
     let runner = RefCell::new(Runner::new());
     ctx.shrink_iters.set(1000);
-    let cases = ctx.share(ctx.tier.pick(3200, 80_000));
+    let cases = ctx.share(ctx.tier.pick(6400, 128_000));
     ctx.search("refusal", "refusal", cases, (gen::program(true, false), any_bool_u8()), |(p, with_id), want_case| {
         let mut case = gen::lower(p);
         // optionally register a helper whose id equals the displacement of a local call
